@@ -144,7 +144,7 @@ func runCheck(spec *PropSpec, tier string, seed, workers int) int {
 	ctx := &checkCtx{spec: spec, tier: tier, seed: seed, extraEvidence: map[string]interface{}{}}
 	known := loadKnown()
 	stats := newSolverStats()
-	evidencePath := filepath.Join(verifDir, "evidence", spec.ID+".json")
+	evidencePath := filepath.Join(evidenceDir(), spec.ID+".json")
 	os.Remove(evidencePath)
 
 	type variant struct {
@@ -489,7 +489,7 @@ func writeEvidence(ctx *checkCtx, results []*HarnessResult, stats *SolverStats, 
 	if spec.Level == "other" {
 		cov["explanation"] = "see technique and harnesses"
 	}
-	writeJSON(filepath.Join(verifDir, "evidence", spec.ID+".json"), ev)
+	writeJSON(filepath.Join(evidenceDir(), spec.ID+".json"), ev)
 }
 
 func max1(n int) int {
@@ -636,4 +636,13 @@ func c17NativeSweep(ctx *checkCtx) {
 		}
 	}
 	ctx.extraEvidence["native_binary_runs"] = runs
+}
+
+// evidenceDir: /verif/evidence, unless a tool that runs checks against a
+// deliberately modified tree (seeded changes, refactorings) redirects it.
+func evidenceDir() string {
+	if d := os.Getenv("GOSYM_EVIDENCE_DIR"); d != "" {
+		return d
+	}
+	return filepath.Join(verifDir, "evidence")
 }
